@@ -24,10 +24,11 @@ def new (P : Nat) (size : Nat) (value : α) : Except Panic (Window α) :=
     .ok { buf := List.replicate size value, index := 0, size := size, s_1 := satSub size 1 }
   else .error .assertFailed
 
-/-- `Window::from_parts(slice, index)` with its two `assert!`s. -/
+/-- `Window::from_parts(slice, index)` with its two `assert!`s
+    (after the `fix:` commit the empty slice with index 0 is accepted). -/
 def fromParts (P : Nat) (slice : List α) (index : Nat) : Except Panic (Window α) :=
   if ¬ (slice.length < P) then .error .assertFailed
-  else if ¬ (slice.length > index) then .error .assertFailed
+  else if ¬ (slice.length > index ∨ (slice.isEmpty ∧ index = 0)) then .error .assertFailed
   else .ok { buf := slice, index := index, size := slice.length, s_1 := satSub slice.length 1 }
 
 /-- `Window::empty()` -/
@@ -178,12 +179,12 @@ inductive DeErr where
 
 def serialize (w : Window α) : List α × Nat := (w.buf, w.index)
 
-/-- after the `fix:` commit an empty buffer with index 0 is accepted (restores `Window::empty()`) -/
+/-- `Deserialize for Window`: two bound checks, then `from_parts`
+    (after the `fix:` commit an empty buffer with index 0 is accepted and restores `Window::empty()`) -/
 def deserialize (P : Nat) (d : List α × Nat) : Except DeErr (Except Panic (Window α)) :=
   let (buf, index) := d
   if buf.length > P - 1 then .error .tooLong
-  else if buf.isEmpty ∧ index = 0 then .ok (.ok empty)
-  else if buf.length ≤ index then .error .indexOut
+  else if buf.length ≤ index ∧ ¬ (buf.isEmpty ∧ index = 0) then .error .indexOut
   else .ok (fromParts P buf index)
 
 /-- push a whole list, collecting the evicted elements -/
